@@ -914,7 +914,7 @@ Qed.
 
 Lemma step_write s b : Inv s -> Inv (fst (mstep c s (EWrite b))) /\ safe_out (snd (mstep c s (EWrite b))).
 Proof.
-  intros [IA IV IR IS]. cbn [mstep fst snd]. split; [|split; discriminate].
+  intros [IA IV IR IS]. cbn [mstep fst snd]. split; [|split; discriminate]. unfold do_write.
   destruct (write_fold_inv (ms_seq s + 1)%N b s IA) as [IA' E]. cbn zeta in *.
   set (sF := fold_left _ b s) in *.
   assert (ms_vers sF = ms_vers s /\ ms_scans sF = ms_scans s /\ ms_cur sF = ms_cur s /\ ms_next sF = ms_next s /\
@@ -937,7 +937,7 @@ Lemma step_rollover s : Inv s -> Inv (fst (mstep c s ERollover)) /\ safe_out (sn
 Proof.
   intros [IA IV IR IS]. cbn [mstep]. destruct (ms_imm s) as [m|] eqn:Eimm; cbn [fst snd].
   - split; [constructor; assumption|split; discriminate].
-  - split; [|split; discriminate].
+  - split; [|split; discriminate]. unfold do_rollover. cbv zeta.
     set (old := ms_mem s). set (nm := mkMT (ms_next s) [] 1 0 false).
     destruct (a_mem _ IA) as [yo [Hyo Hido]]. pose proof (a_fresh _ IA yo Hyo) as Hfo. fold old in Hido.
     constructor; ms.
@@ -980,10 +980,9 @@ Proof.
   eapply InvA_ext; [| | | | |exact IA]; try assumption. rewrite N1. lia.
 Qed.
 
-Lemma clear_imm_A s : InvA s ->
-  InvA (mkMS (ms_seq s) (ms_vis s) (ms_mem s) None (ms_mts s) (ms_vers s) (ms_cur s) (ms_refs s) (ms_disk s) (ms_cache s) (ms_scans s) (ms_next s)).
+Lemma clear_imm_A s : InvA s -> InvA (clear_imm s).
 Proof.
-  intros I. constructor; ms; try apply I.
+  intros I. unfold clear_imm. constructor; ms; try apply I.
   - intros y Hy [Hc|Hc]; [|discriminate]. apply (a_cur _ I y Hy). now left.
   - intros m Hm. discriminate.
 Qed.
@@ -1005,28 +1004,27 @@ Lemma step_flushdone s fid : Inv s -> Inv (fst (mstep c s (EFlushDone fid))) /\ 
 Proof.
   intros [IA IV IR IS]. cbn [mstep]. destruct (ms_imm s) as [m|] eqn:Eimm; cbn [fst snd].
   2:{ split; [constructor; assumption|split; discriminate]. }
-  split; [|split; discriminate].
-  set (levels := match cur_levels s with [] => [[mkFile fid (look_of s m)]] | l0 :: r => (l0 ++ [mkFile fid (look_of s m)]) :: r end).
+  split; [|split; discriminate]. unfold do_flushdone. cbv zeta.
+  set (levels := flush_levels fid m s).
   destruct (install_new_inv levels s IV IR) as [IV' IR'].
   destruct (install_new_frame levels s) as [[F1 [F2 [F3 [F4 [F5 [F6 F7]]]]]] N1].
   set (s1 := install_new levels s) in *.
   assert (InvA s1) as IA1 by (eapply InvA_ext; [| | | | |exact IA]; try assumption; rewrite N1; lia).
   destruct (a_imm _ IA m Eimm) as [_ Hne].
-  set (s1' := mkMS (ms_seq s1) (ms_vis s1) (ms_mem s1) None (ms_mts s1) (ms_vers s1) (ms_cur s1) (ms_refs s1) (ms_disk s1) (ms_cache s1) (ms_scans s1) (ms_next s1)).
-  assert (InvA s1') as IA1' by (apply clear_imm_A; exact IA1).
-  assert (InvA (upd_mt (mt_drop_store c) m (upd_mt (mt_drop_store c) m s1'))) as IA2.
-  { apply drop_store_A; [apply drop_store_A| |]; try exact IA1'; unfold s1'; ms; try congruence; discriminate. }
+  assert (InvA (clear_imm s1)) as IA1' by (apply clear_imm_A; exact IA1).
+  assert (InvA (upd_mt (mt_drop_store c) m (upd_mt (mt_drop_store c) m (clear_imm s1)))) as IA2.
+  { apply drop_store_A; [apply drop_store_A| |]; try exact IA1'; unfold clear_imm; ms; try congruence; discriminate. }
   constructor.
   - exact IA2.
-  - eapply InvV_ext'; [| | | |exact IV']; try reflexivity. ms. lia.
+  - eapply InvV_ext'; [| | | |exact IV']; try reflexivity; try (ms; lia).
   - eapply InvR_ext; [| | |exact IR']; reflexivity.
-  - ms. rewrite F7. exact IS.
+  - unfold clear_imm. ms. rewrite F7. exact IS.
 Qed.
 
 Lemma step_unlink s fs : Inv s -> Inv (fst (mstep c s (EUnlinkTrash fs))) /\ safe_out (snd (mstep c s (EUnlinkTrash fs))).
 Proof.
   intros [IA IV IR IS]. cbn [mstep fst snd]. split; [|split; discriminate].
-  constructor; [eapply InvA_ext; [| | | | |exact IA]; try reflexivity; ms; lia|eapply InvV_ext'; [| | | |exact IV]; try reflexivity; ms; lia| |exact IS].
+  constructor; [eapply InvA_ext; [| | | | |exact IA]; try reflexivity; try (ms; lia)|eapply InvV_ext'; [| | | |exact IV]; try reflexivity; try (ms; lia)| |exact IS].
   assert (forall d0, (forall x, In x (fold_left (fun d f => disk_unlink f d) fs d0) -> exists y, In y d0 /\ d_id y = d_id x /\ d_sst y = d_sst x) /\
                      (forall y, In y d0 -> exists x, In x (fold_left (fun d f => disk_unlink f d) fs d0) /\ d_id x = d_id y)) as H.
   { induction fs as [|f fs IH]; intros d0; cbn [fold_left].
@@ -1047,7 +1045,7 @@ Qed.
 Lemma step_evict s fs : Inv s -> Inv (fst (mstep c s (ECacheEvict fs))) /\ safe_out (snd (mstep c s (ECacheEvict fs))).
 Proof.
   intros [IA IV IR IS]. cbn [mstep fst snd]. split; [|split; discriminate].
-  constructor; [eapply InvA_ext; [| | | | |exact IA]; try reflexivity; ms; lia|eapply InvV_ext'; [| | | |exact IV]; try reflexivity; ms; lia|
+  constructor; [eapply InvA_ext; [| | | | |exact IA]; try reflexivity; try (ms; lia)|eapply InvV_ext'; [| | | |exact IV]; try reflexivity; try (ms; lia)|
                 eapply InvR_ext; [| | |exact IR]; reflexivity|exact IS].
 Qed.
 End Steps.
